@@ -29,8 +29,10 @@ def obligations(tier):
            bounds="dict with int, nested bool/str and list values: ints unbounded, str <= 1 char, selector: every str <= 7 chars"),
         CH("validate_raises_iff_invalid", H, "sel_validate", t, functions=F, stubs=[FMT],
            bounds="ints unbounded, bool list with equal elements, selector: every str <= 7 chars"),
+        CH("sorted_walk_indices_and_hyphens", H, "sel_sorted", t, functions=F[:3], stubs=[FMT],
+           bounds="list of 11 elements (indices 0..10), sibling keys 'sha' / 'sha-1' with nested value; selector: every str <= 8 chars"),
         CH("objects_embedded_and_extensions", H, "sel_objects", t, mode="E1s", functions=F + ["stix2.markings.add_markings", "stix2.parsing.parse"],
-           bounds="3 real objects x (every path of their JSON + 10 near misses); validate, add_markings, parse with granular_markings"),
+           bounds="3 real objects x (every path of their JSON + 10 near misses); validate, add/get/is_marked/set/remove/clear_markings on unmarked and marked objects, parse with granular_markings"),
         JOB("selector_regex_is_grammar", "props.j_regex", "job_selector", 120, engine="re2z3", functions=["stix2.properties.SelectorProperty.clean"],
             bounds="all strings (regex language inclusion, both directions)"),
     ]
